@@ -28,11 +28,11 @@ variable (cfg : Cfg) (env : Env) (cache : Path)
 theorem write_ok_means (fl : Flavour) (key : Bytes) (o : WriteOpts) (chunks : List Bytes)
     (b0 : Bytes) (fs : FS) (hv : ContentValid cfg cache fs)
     (hb : BucketIs fs (bucketPath cfg cache key) b0) (plan : Nat → Option Fault) :
-    (StreamPost cfg cache o chunks (run env (writeStream cfg cache fl (some key) o chunks) fs).1
+    (StreamPost cfg cache (some key) o chunks (run env (writeStream cfg cache fl (some key) o chunks) fs).1
         (run env (writeStream cfg cache fl (some key) o chunks) fs).2.1 ∧
      BucketPost cfg cache key o chunks b0 (run env (writeStream cfg cache fl (some key) o chunks) fs).1
         (run env (writeStream cfg cache fl (some key) o chunks) fs).2.1) ∧
-    (StreamPost cfg cache o chunks (runFault env plan (writeStream cfg cache fl (some key) o chunks) fs 0).1
+    (StreamPost cfg cache (some key) o chunks (runFault env plan (writeStream cfg cache fl (some key) o chunks) fs 0).1
         (runFault env plan (writeStream cfg cache fl (some key) o chunks) fs 0).2.1 ∧
      BucketPost cfg cache key o chunks b0 (runFault env plan (writeStream cfg cache fl (some key) o chunks) fs 0).1
         (runFault env plan (writeStream cfg cache fl (some key) o chunks) fs 0).2.1) :=
@@ -42,9 +42,9 @@ theorem write_ok_means (fl : Flavour) (key : Bytes) (o : WriteOpts) (chunks : Li
 /-- The by-address writes: success means the digest and its content path. -/
 theorem write_hash_ok_means (fl : Flavour) (o : WriteOpts) (chunks : List Bytes) (fs : FS)
     (hv : ContentValid cfg cache fs) (plan : Nat → Option Fault) :
-    StreamPost cfg cache o chunks (run env (writeStream cfg cache fl none o chunks) fs).1
+    StreamPost cfg cache none o chunks (run env (writeStream cfg cache fl none o chunks) fs).1
         (run env (writeStream cfg cache fl none o chunks) fs).2.1 ∧
-    StreamPost cfg cache o chunks (runFault env plan (writeStream cfg cache fl none o chunks) fs 0).1
+    StreamPost cfg cache none o chunks (runFault env plan (writeStream cfg cache fl none o chunks) fs 0).1
         (runFault env plan (writeStream cfg cache fl none o chunks) fs 0).2.1 :=
   ⟨(wpD_run (writeStream_wp cfg env cache fl none o chunks hv)).2,
    (wpD_fault (writeStream_wp cfg env cache fl none o chunks hv) plan 0).2⟩
